@@ -363,6 +363,29 @@ static void enumerate(void)
 			flush();
 		}
 	}
+	/* (b2) d=2: every pair of positions of the valid unsigned and HS256 tokens x every pair from a structural alphabet */
+	if (vf_thorough && !guard)
+		for (int c = 0; c <= CF_HS; c++) {
+			static const char SA[] = { '.', '=', 'A', '-', (char)0x80, '!' };
+			size_t n = strlen(VALID[c]);
+			for (size_t p1 = 0; p1 < n; p1++) {
+				if (!vf_case("d=2 neighbourhood of the valid %s token: position %zu x every later position x 6x6 structural bytes", cf_name[c], p1))
+					continue;
+				char *m = strdup(VALID[c]);
+				for (size_t p2 = p1 + 1; p2 < n; p2++)
+					for (unsigned a = 0; a < sizeof SA; a++)
+						for (unsigned b = 0; b < sizeof SA; b++) {
+							m[p1] = SA[a];
+							m[p2] = SA[b];
+							probe(c, m);
+							if (c != CF_NOKEY)
+								probe(CF_NOKEY, m);
+							m[p2] = VALID[c][p2];
+						}
+				free(m);
+				flush();
+			}
+		}
 	/* (c) length sweeps: every length of each segment (buffer arithmetic) */
 	{
 		int maxl = 66000;
